@@ -84,6 +84,22 @@ static void accessors(json_object *o, const char *kind, int exact_neg, uint64_t 
 	ev_close_obj();
 	ev_bool("bool", json_object_get_boolean(o));
 	{
+		/* the node's kind as the type API reports it: name, the one type is_type answers yes to, and the accessors of
+		 * other kinds answering "nothing" (no table, no list, length 0 for a non-string) */
+		const char *tn = json_type_to_name(json_object_get_type(o));
+		ev_str("tname", tn ? tn : "(none)");
+		long long is[8];
+		int nis = 0;
+		for (int t = 0; t <= 6; t++)
+			if (json_object_is_type(o, (json_type)t))
+				is[nis++] = t;
+		ev_ints("is", is, (size_t)nis);
+		int isstr = !strcmp(kind, "string"), isarr = !strcmp(kind, "array"), isobj = !strcmp(kind, "object");
+		ev_bool("foreign_empty", (isstr || json_object_get_string_len(o) == 0) && (isarr || json_object_get_array(o) == NULL) &&
+		                             (isobj || json_object_get_object(o) == NULL)); /* (the length functions assert the kind) */
+		ev_bool("noname", json_type_to_name((json_type)7) == NULL && json_type_to_name((json_type)-1) == NULL);
+	}
+	{
 		/* the value an accessor returns is a function of the node, not of what errno happened to hold on entry
 		 * (the caller of the previous accessor may have left ERANGE or EINVAL there) */
 		static const int amb[] = {ERANGE, EINVAL, ENOMEM};
